@@ -869,7 +869,8 @@ def showExplicit (s : State) (arg : ShowArg) (p : Nat) :
         else hc
       let hc := hc ++ List.replicate (own.length - hc.length) Card.unknownCard
       let hs := hs ++ List.replicate (own.length - hs.length) false
-      let extra := (dedup hc).filter (fun c => !own.contains c)
+      -- each card the player already holds accounts for one mention of it (state.py, since the F23 repair)
+      let extra := own.foldl (fun l c => l.erase c) (hc.filter Card.known)
       match s.verifyCardsConsumption cfg env (.cards extra) with
       | .error e => .error e
       | .ok v => .ok ⟨(true, some (cards, hc, hs)), v.warned⟩
